@@ -320,7 +320,12 @@ func cmdProp(args []string) {
 			if ob.Kind == "vacuity" {
 				rec["kind"] = "vacuity (must be satisfiable)"
 				obRecords = append(obRecords, rec)
-				if ob.Result == "unsat" && strings.Contains(ob.Name, "#vacuity#return") {
+				if ob.Result == "unsat" && (strings.Contains(ob.Name, "#vacuity#before-call") || (ob.Before != nil && ob.Before.Result == "unsat")) {
+					// the path to this call is infeasible anyway (e.g. a deterministic callee asked the same
+					// question twice): nothing the postcondition could make vacuous
+					rec["note"] = "call on an infeasible path"
+					unreachable = append(unreachable, ob.Name)
+				} else if ob.Result == "unsat" && strings.Contains(ob.Name, "#vacuity#return") {
 					// a return that cannot be reached under the precondition is legal (defensive code);
 					// only an unreachable function exit or an unsatisfiable precondition is an alarm
 					rec["note"] = "return path unreachable under the precondition"
